@@ -3,6 +3,7 @@ package main
 // Query construction and solver back ends (z3 4.8.12, z3 5.1.0, cvc5 1.0.3).
 
 import (
+	"regexp"
 	"runtime"
 	"bytes"
 	"context"
@@ -62,6 +63,178 @@ func (tr *Tr) prelude(withCandidates bool) string {
 			continue
 		}
 		fmt.Fprintf(&b, "(assert %s) ; %s\n", a.Term, strings.ReplaceAll(a.Why, "\n", " "))
+	}
+	return b.String()
+}
+
+// ---- path slicing -------------------------------------------------------------------
+// An assumption guarded by a reachability symbol that is not an ancestor of the obligation's
+// path condition is vacuous on that path; leaving it out is sound (fewer hypotheses) and
+// keeps the queries small.
+
+var reachSymRE = regexp.MustCompile(`reach[a-z_]*_[0-9]+`)
+
+type slicer struct {
+	defs  map[string][]string // reach symbol -> reach symbols in its definition
+	conjD map[string]bool     // the definition is a conjunction (implies each of them)
+	memo  map[string]map[string]bool
+	heads []string
+	glob  []int        // indices of assumptions with no reach guard
+	byG   map[int][]string
+}
+
+func (tr *Tr) newSlicer() *slicer {
+	sl := &slicer{defs: map[string][]string{}, memo: map[string]map[string]bool{}, byG: map[int][]string{}, conjD: map[string]bool{}}
+	for _, d := range tr.decls {
+		if !strings.HasPrefix(d, "(define-fun reach") {
+			continue
+		}
+		rest := d[len("(define-fun "):]
+		i := strings.IndexByte(rest, ' ')
+		if i < 0 {
+			continue
+		}
+		name := rest[:i]
+		body := rest[i:]
+		if j := strings.Index(body, "Bool "); j >= 0 {
+			bd := strings.TrimSpace(body[j+5:])
+			sl.conjD[name] = !strings.HasPrefix(bd, "(or ") && !strings.HasPrefix(bd, "(ite ")
+		}
+		for _, r := range reachSymRE.FindAllString(body, -1) {
+			if r != name {
+				sl.defs[name] = append(sl.defs[name], r)
+			}
+		}
+		if _, ok := sl.defs[name]; !ok {
+			sl.defs[name] = nil
+		}
+	}
+	for i, a := range tr.assumes {
+		t := a.Term
+		if !strings.HasPrefix(t, "(=> ") {
+			sl.glob = append(sl.glob, i)
+			continue
+		}
+		// antecedent: first s-expression after "(=> "
+		ante := firstSexp(t[4:])
+		rs := reachSymRE.FindAllString(ante, -1)
+		if len(rs) == 0 {
+			sl.glob = append(sl.glob, i)
+			continue
+		}
+		sl.byG[i] = rs
+	}
+	return sl
+}
+
+func firstSexp(s string) string {
+	if len(s) == 0 {
+		return ""
+	}
+	if s[0] != '(' {
+		if i := strings.IndexAny(s, " )"); i >= 0 {
+			return s[:i]
+		}
+		return s
+	}
+	d := 0
+	for i := 0; i < len(s); i++ {
+		switch s[i] {
+		case '(':
+			d++
+		case ')':
+			d--
+			if d == 0 {
+				return s[:i+1]
+			}
+		}
+	}
+	return s
+}
+
+func (sl *slicer) ancestors(r string) map[string]bool {
+	if m, ok := sl.memo[r]; ok {
+		return m
+	}
+	m := map[string]bool{r: true}
+	sl.memo[r] = m
+	for _, p := range sl.defs[r] {
+		for k := range sl.ancestors(p) {
+			m[k] = true
+		}
+	}
+	return m
+}
+
+// conjuncts: reach symbols implied by r (through conjunctive definitions).
+func (sl *slicer) conjuncts(r string, out map[string]bool) {
+	if out[r] {
+		return
+	}
+	out[r] = true
+	if sl.conjD[r] {
+		for _, p := range sl.defs[r] {
+			sl.conjuncts(p, out)
+		}
+	}
+}
+
+// relevant: assertions for the obligation with guard g.
+func (tr *Tr) relevantAssumes(sl *slicer, g string, withCandidates bool) string {
+	rs := reachSymRE.FindAllString(g, -1)
+	conj := map[string]bool{}
+	if !strings.HasPrefix(strings.TrimSpace(g), "(or ") {
+		for _, r := range rs {
+			sl.conjuncts(r, conj)
+		}
+	}
+	var b strings.Builder
+	for i, a := range tr.assumes {
+		if a.Term == "true" || a.Term == "" {
+			continue
+		}
+		if a.Candidate && (!a.Alive || !withCandidates) {
+			continue
+		}
+		if gs, ok := sl.byG[i]; ok && len(rs) > 0 {
+			keep := true
+			for _, r := range gs {
+				if _, known := sl.defs[r]; !known {
+					continue
+				}
+				// r must be comparable (earlier or later on the same path) with every reach symbol the guard implies
+				for c := range conj {
+					if !sl.ancestors(c)[r] && !sl.ancestors(r)[c] {
+						keep = false
+						break
+					}
+				}
+				if !keep {
+					break
+				}
+			}
+			if !keep {
+				continue
+			}
+		}
+		fmt.Fprintf(&b, "(assert %s)\n", a.Term)
+	}
+	return b.String()
+}
+
+func (tr *Tr) declsOnly() string {
+	var b strings.Builder
+	valOK := tr.valOKDef()
+	b.WriteString("(set-logic ALL)\n")
+	b.WriteString(tr.eng.sorts.declarations())
+	for _, d := range tr.predecls {
+		b.WriteString(d)
+		b.WriteByte('\n')
+	}
+	b.WriteString(valOK)
+	for _, d := range tr.decls {
+		b.WriteString(d)
+		b.WriteByte('\n')
 	}
 	return b.String()
 }
@@ -197,12 +370,15 @@ func (tr *Tr) discharge(cfg *SolverCfg, workers int, keep func(o *Obligation) bo
 			ccfg.TimeoutMs = 3000
 		}
 		ccfg.Race = false
+		sl := tr.newSlicer()
+		decls := tr.declsOnly()
+		_ = pre
 		as := make([]string, len(cands))
 		for i, o := range cands {
-			as[i] = fmt.Sprintf("(assert (and %s (not %s)))\n", o.Guard, o.Goal)
+			as[i] = tr.relevantAssumes(sl, o.Guard, true) + fmt.Sprintf("(assert (and %s (not %s)))\n", o.Guard, o.Goal)
 		}
 		t0 := time.Now()
-		br := solveBatch(pre, as, &ccfg, 2000, fmt.Sprintf("h%d", round))
+		br := solveBatch(decls, as, &ccfg, 2000, fmt.Sprintf("h%d", round))
 		for i, o := range cands {
 			o.Result, o.Solver, o.TimeMs = br[i], "z3-new", time.Since(t0).Milliseconds()/int64(len(cands)+1)
 			if o.Result == "" {
@@ -242,17 +418,19 @@ func (tr *Tr) discharge(cfg *SolverCfg, workers int, keep func(o *Obligation) bo
 		todo = append(todo, o)
 	}
 	// first pass: incremental batches; whatever is not unsat is retried standalone below
+	sl := tr.newSlicer()
+	decls := tr.declsOnly()
 	if !cfg.Race {
 		as := make([]string, len(todo))
 		for i, o := range todo {
-			as[i] = fmt.Sprintf("(assert (and %s (not %s)))\n", o.Guard, o.Goal)
+			as[i] = tr.relevantAssumes(sl, o.Guard, true) + fmt.Sprintf("(assert (and %s (not %s)))\n", o.Guard, o.Goal)
 		}
 		t0 := time.Now()
 		bt := cfg.TimeoutMs
 		if bt > 4000 {
 			bt = 4000
 		}
-		br := solveBatch(pre, as, cfg, bt, "main")
+		br := solveBatch(decls, as, cfg, bt, "main")
 		per := time.Since(t0).Milliseconds() / int64(len(todo)+1)
 		var rest []*Obligation
 		for i, o := range todo {
@@ -268,7 +446,7 @@ func (tr *Tr) discharge(cfg *SolverCfg, workers int, keep func(o *Obligation) bo
 		todo = rest
 	}
 	runPool(todo, workers, func(i int, o *Obligation) {
-		q := pre + fmt.Sprintf("(assert (and %s (not %s)))\n", o.Guard, o.Goal)
+		q := decls + tr.relevantAssumes(sl, o.Guard, true) + fmt.Sprintf("(assert (and %s (not %s)))\n", o.Guard, o.Goal)
 		var gv []Term
 		r := solve(q, cfg, fmt.Sprintf("o%d_%d", i, os.Getpid()), gv)
 		o.Result, o.Solver, o.TimeMs, o.Model = r.status, r.solver, r.ms, r.model
